@@ -21,6 +21,7 @@ The translation is a finite set of context-free templates (`quote!` bodies of th
    State::unify / State::disunify; succeed/fail; the conjunction builders used by the templates
    are total order-preserving folds; Fresh::solve / Closure::solve run the body on the incoming
    state.
+ (round 4) builders.check_all with neutral-element check; macro front end only appends.
 """
 import macrolib
 import streams
@@ -398,6 +399,9 @@ def check_library(ctx, lib):
         for f in ("from_array", "from_vec"):
             check_fold(ctx, lib, RB, "crate::operator::conj::%s::%s" % (tyname, f), new)
         check_fold(ctx, lib, RB, "crate::operator::conj::%s::from_conjunctions" % tyname, new, inner="%s::from_array" % tyname)
+    import builders
+
+    builders.check_all(ctx, lib, "C14.K6.builders")
     # `true` / `false` and goal casts: the goal kinds mean what the templates assume
     import goalkinds
 
@@ -441,8 +445,9 @@ def _unit_of(r, scrut):
     return False
 
 
-def check_fold(ctx, lib, rule, fn_suffix, new_suffix, inner=None):
-    """acc = succeed; for g in <every element once, reversed> { acc = new(g, acc) }  (written order kept)."""
+def check_fold(ctx, lib, rule, fn_suffix, new_suffix, inner=None, unit="succeed"):
+    """acc = unit; for g in <every element once, reversed> { acc = new(g, acc) }  (written order kept).
+    unit is `succeed` for a conjunction (the empty conjunction holds) and `fail` for a disjunction."""
     fn = streams.getfn(ctx, lib, rule, fn_suffix)
     if not fn:
         return
@@ -479,9 +484,18 @@ def check_fold(ctx, lib, rule, fn_suffix, new_suffix, inner=None):
         rhs = body[0][2]
         news = [c for c in sym.calls(rhs, new_suffix)]
         ok = len(news) == 1 and news[0][2] == (("item", it), acc)
+        if not news:
+            # `new` inlined (a pure constructor wrapper): the node must hold (element, acc)
+            nodes = list(dict.fromkeys(q for q in sym.subterms(rhs) if q[0] == "struct" and dict(q[2]).get("goal_1") is not None))
+            ok = len(nodes) == 1 and suffix_match(nodes[0][1], new_suffix.split("::")[0]) and dict(nodes[0][2]).get("goal_1") == ("item", it) and dict(nodes[0][2]).get("goal_2") == acc
         res = tables.result(t)
         ok = ok and any(s == acc for s in sym.subterms(res))
     ctx.expect(ok, rule, key + "|step", site, "each iteration must be acc = %s(element, acc) and the result the accumulator; found %s" % (new_suffix, show(f[3], maxdepth=5)[:240]))
+    if ok:
+        inits = [st[2] for q in sym.subterms(t) if q[0] == "seq" for st in q[1] if st[0] == "let" and st[1][0] == "pbind" and st[1][1] == acc[1]]
+        U = unit.capitalize()
+        oki = len(inits) == 1 and (tables.result(inits[0])[0] == "call" and suffix_match(tables.result(inits[0])[1], unit) and not tables.result(inits[0])[2] or tables.result(inits[0])[0] == "ctor" and tables.result(inits[0])[1].endswith("::" + U))
+        ctx.expect(oki, rule, key + "|unit=%s" % unit, site, "the fold must start from `%s` (the neutral element: an empty %s); starts as %s" % (unit, "conjunction holds" if unit == "succeed" else "disjunction has no answers", show(inits[0], maxdepth=4) if inits else "?"))
 
 
 def run(ctx, fb, cfg):
@@ -500,4 +514,5 @@ def run(ctx, fb, cfg):
         ctx.violation("C14.K6.parser-dispatch", "anchor-missing|macro crate facts", "macros/src/lib.rs", "no typed-HIR facts for proto_vulcan_macros")
     else:
         check_parser(ctx, mac)
+        macrolib.check_sequence_ops(ctx, mac, "C14.K6.front-end-only-appends")
     check_library(ctx, fb.lib)
